@@ -147,7 +147,8 @@ Definition optN_eqb (a b : option N) : bool :=
   match a, b with Some x, Some y => x =? y | None, None => true | _, _ => false end.
 Definition snap_eqb (a b : snap) : bool :=
   plist_eqb (sfwd a) (sfwd b) && plist_eqb (srev a) (srev b) && optN_eqb (stot a) (stot b).
-Definition obs_eqb (a b : obs) : bool := ret_eqb (o_ret a) (o_ret b) && all2 snap_eqb (o_snaps a) (o_snaps b).
+Definition obs_eqb (a b : obs) : bool :=
+  ret_eqb (o_ret a) (o_ret b) && all2 snap_eqb (o_snaps a) (o_snaps b) && all2 ret_eqb (o_mid a) (o_mid b).
 
 (* ---- circuit-id keys: the monitor remembers every (circuit-id, key) pair it has seen ----
    clause 10  key shape       the key has exactly 32 bytes
